@@ -81,9 +81,17 @@ def judge_hidden(feats: Sequence[str], targets: Sequence[str], form: str, res: D
         elif form == 'exact-before-public-pattern':
             # an exact rule beats any pattern, wherever it stands in the list
             args += ['--privacy', 'HIDDEN:' + t, '--privacy', 'PUBLIC:' + pattern_for(t), '--privacy', 'PUBLIC:pk**']
+        elif form.startswith('exact+subject-inside:'):
+            # the run is asked to document only an object that lives INSIDE the hidden one: nothing of it may come out, in any output file
+            args += ['--privacy', 'HIDDEN:' + t, '--html-subject', form.split(':', 1)[1]]
         else:
             args += ['--privacy', 'HIDDEN:' + (t if form == 'exact' else pattern_for(t))]
-    case = {'kind': 'hidden', 'feats': list(feats), 'targets': list(targets), 'form': form}
+    if form.startswith('exact+subject-inside:'):
+        form = 'exact+subject-inside'
+        subject = args[-1]
+    else:
+        subject = None
+    case = {'kind': 'hidden', 'feats': list(feats), 'targets': list(targets), 'form': form if subject is None else f'{form}:{subject}'}
     res['evals'] += 1
     with site.run(feats, args + ['--sidebar-expand-depth', '2']) as r:
         if r.exc or r.system is None:
@@ -105,8 +113,8 @@ def judge_hidden(feats: Sequence[str], targets: Sequence[str], form: str, res: D
                     continue
                 seen.add(sig)
                 res['violations'].append(core.violation('/'.join(sig), f'{list(feats)} with {t} hidden ({form}): {what}', case))
-        # the rest of the site must still be consistent (no dead links introduced by hiding)
-        for sig, what in site.crawl(str(r.out), r.system, pages):
+        # the rest of the site must still be consistent (no dead links introduced by hiding); a partial (--html-subject) output is not a site
+        for sig, what in (site.crawl(str(r.out), r.system, pages) if subject is None else []):
             if sig[2] in ('superseded-duplicate',) or sig[1] == 'all-documents.url' or sig[2] in ('hierarchy-entry-below-superseded-class', 'inside-replaced-module') or sig[1] == 'inside-replaced-module':
                 continue      # C11 known findings
             if ('after-hiding',) + sig not in seen:
@@ -191,6 +199,9 @@ def run_job(job: Any, tier: str) -> Dict[str, Any]:
             judge_hidden(feats, [t], 'pattern', res)
             judge_hidden(feats, [t], 'pattern-after-public-patterns', res)
             judge_hidden(feats, [t], 'exact-before-public-pattern', res)
+            inside = [n for n in names if n.startswith(t + '.')]
+            for sub in inside[:1] + [n for n in inside if n.count('.') > t.count('.') + 1][:1]:
+                judge_hidden(feats, [t], 'exact+subject-inside:' + sub, res)
             judge_private(feats, t, 'exact', '2', res)
             if job[2] == 'thorough':
                 judge_private(feats, t, 'pattern', '3', res)
